@@ -51,3 +51,48 @@ Example C02_premises_satisfiable :
   PathEncProofs.wf_graph (p_graph (f_base (exI 2))) /\ exists a, sat a (encode_kfd (exI 2)).
 Proof. exact (conj ex_wf ex_lp_feasible_2). Qed.
 Print Assumptions C02_premises_satisfiable.
+
+(* ---- given weights (solution_weights_superset): PathEnc.encode_kfd_given, empty layers allowed ---- *)
+From FP Require Import PathEncGiven.
+(* every layer of every satisfying assignment is EITHER empty (no edge has value 1; the decoder returns the empty path)
+   OR exactly one source-to-sink path, which the decoder returns *)
+Theorem C02_given_weights_layer_is_empty_or_one_path :
+  forall (I : kfd_inst) (ws : list Q) (k_orig : nat) (a : var -> Q),
+  PathEncProofs.wf_graph (p_graph (f_base I)) -> p_allow_empty (f_base I) = true ->
+  length ws = p_k (f_base I) -> sat a (encode_kfd_given I ws k_orig) ->
+  forall (rank : node -> nat) (Rm : nat) (i : N),
+  (forall u v, In (u, v) (g_edges (p_graph (f_base I))) -> (rank u < rank v)%nat) -> (forall v, (rank v <= Rm)%nat) ->
+  In i (layers (p_k (f_base I))) ->
+  (sumx (xval a i) (outs (g_edges (p_graph (f_base I))) (g_src (p_graph (f_base I)))) = 0%Z /\
+     (forall e, In e (g_edges (p_graph (f_base I))) -> xval a i e = 0%Z) /\
+     solution_path (g_edges (p_graph (f_base I))) (xval a i) (g_src (p_graph (f_base I))) (g_snk (p_graph (f_base I))) (S Rm) = Some []) \/
+  (sumx (xval a i) (outs (g_edges (p_graph (f_base I))) (g_src (p_graph (f_base I)))) = 1%Z /\
+     exists p, decode (g_edges (p_graph (f_base I))) (xval a i) (g_snk (p_graph (f_base I))) (S Rm) (g_src (p_graph (f_base I))) = Some p /\
+               last p (g_src (p_graph (f_base I))) = g_snk (p_graph (f_base I)) /\
+               Permutation (Sup (g_edges (p_graph (f_base I))) (xval a i)) (EulerProofs1.pairs (g_src (p_graph (f_base I)) :: p))).
+Proof. exact given_layer_empty_or_path. Qed.
+Print Assumptions C02_given_weights_layer_is_empty_or_one_path.
+
+(* the GIVEN weights of the layers through a non-ignored edge add up to its flow *)
+Theorem C02_given_weights_explain_flow :
+  forall (I : kfd_inst) (ws : list Q) (k_orig : nat) (a : var -> Q),
+  length ws = p_k (f_base I) -> sat a (encode_kfd_given I ws k_orig) ->
+  forall e, In e (g_edges (p_graph (f_base I))) -> mem_edge e (f_ignore I) = false ->
+  (sumq (fun iw => snd iw * inject_Z (xval a (fst iw) e)) (zipn 0 ws) == lookup_q e (f_flow I) 0)%Q.
+Proof. exact given_flow_explained. Qed.
+Print Assumptions C02_given_weights_explain_flow.
+
+(* at most k_orig layers are non-empty, and the objective is their number *)
+Theorem C02_given_weights_path_count :
+  forall (I : kfd_inst) (ws : list Q) (k_orig : nat) (a : var -> Q),
+  PathEncProofs.wf_graph (p_graph (f_base I)) -> sat a (encode_kfd_given I ws k_orig) ->
+  (sumz (fun i => sumx (xval a i) (outs (g_edges (p_graph (f_base I))) (g_src (p_graph (f_base I))))) (layers (p_k (f_base I))) <= Z.of_nat k_orig)%Z /\
+  (objective a (encode_kfd_given I ws k_orig) ==
+   inject_Z (sumz (fun i => sumx (xval a i) (outs (g_edges (p_graph (f_base I))) (g_src (p_graph (f_base I))))) (layers (p_k (f_base I)))))%Q.
+Proof. exact given_path_count. Qed.
+Print Assumptions C02_given_weights_path_count.
+
+Example C02_given_weights_premises_satisfiable :
+  sat exAg (encode_kfd_given exIg [2%Q; 3%Q; 5%Q] 2) /\ p_allow_empty (f_base exIg) = true /\ length [2%Q; 3%Q; 5%Q] = p_k (f_base exIg).
+Proof. exact (conj ex_given_sat (conj eq_refl eq_refl)). Qed.
+Print Assumptions C02_given_weights_premises_satisfiable.
